@@ -1123,3 +1123,15 @@ def run(chk: Check):
         _b1(chk, dict(NA=2, NS=2, NH=3, Dyn="TRUE"), "2x2x3", layouts="alternate")
         _b2(chk, 640, 160, "rand", churn=[100, 200, 300, 400, 600, 800] * 6 + [1500, 2500, 4200, 4200])
     chk.cov["exhaustive"] = True
+
+
+# ---- growth beyond the listed property: the TCP side of the same SOCKS5 server (Socks5Tcp.tla)
+_run_udp = run
+
+
+def run(chk: Check):
+    _run_udp(chk)
+    from . import growth_socks5tcp
+    growth_socks5tcp.section(chk, 2 if chk.tier == "quick" else 3)
+    chk.cov["rule"] += ("  Socks5Tcp: every edge of the byte-fed model of the SOCKS5 TCP handshake/command loop (5 greetings x "
+                        "sequences of 6 command kinds, EOF at every byte) replayed into SOCKS5Server.handle_connection.")
